@@ -30,7 +30,8 @@ GROUPS: dict[str, list[tuple[str, str]]] = {
     # compute_degree, _compute_degree_cached, is_linear, is_quadratic, Expression.degree are translated (py2lean_degentry.py)
     "degree": [("analysis.py", "_estimate_tree_depth")],
     # extract_all_linear_coefficients, _try_extract_fast_binop, _vector_is_aligned are translated (py2lean_lpfast.py)
-    "lp_extract": [("analysis.py", n) for n in ("extract_linear_coefficient", "extract_constant_term")],
+    # extract_linear_coefficient / extract_constant_term (guard + walker) are translated (py2lean_lpfast.py)
+    "lp_extract": [],
     "solution": [("solution.py", "Solution")],
     "solve_lp": [("solvers/lp_solver.py", "solve_lp")],
     "solve_scipy": [("solvers/scipy_solver.py", "solve_scipy")],
